@@ -387,6 +387,17 @@ def family_eqrel(tier, start=0):
     return cases, small, extreme
 
 
+def eqrel_partition_dbs():
+    """databases that drive EquivalenceRelation::partition() (the parallel scan of an eqrel relation) into each of its branches
+    for the interpreter's 20 x threads chunks: more classes than chunks (one iterator per class), a small class beside a much
+    larger one (whole-class iterator for the small, per-element iterators for the large)."""
+    many = tuple((i, i) for i in range(100, 145)) + ((1, 2), (10, 11), (11, 12))
+    many4 = tuple((i, i) for i in range(100, 186)) + ((1, 2), (10, 11), (11, 12))
+    chain = tuple((i, i + 1) for i in range(20, 39)) + ((1, 2), (5, 6), (6, 7))
+    q = ((1,), (2,), (11,), (30,), (100,), (7,))
+    return [{"s": many, "q": q}, {"s": many4, "q": q}, {"s": chain, "q": q}]
+
+
 # ------------------------------------------------------------------ C22 autoinc / C10 choice / C11 subsumption
 
 def _strip_autoinc(t):
